@@ -173,6 +173,10 @@ class AbstractWav(ABC):
         startTime, endTime = utils.getInterval(start, step, self.duration, reverse)
         samples = self.getSamples(startTime, endTime)
 
+        # getSamples() starts at the sample nearest to startTime; report the
+        # crossing relative to that sample so that the result is a sample position
+        startTime = round(startTime * self.frameRate) / self.frameRate
+
         return _findNextZeroCrossing(startTime, samples, self.frameRate, reverse)
 
     @property
